@@ -59,6 +59,12 @@ class Check:
         self.ob(key, True, "anchor found: " + what, where, trivial=True)
         return obj
 
+    def unreadable(self, key, what, reason, where=None):
+        """Fail closed when a function that a rule evaluates on a finite model (and for which there is no shape rule to
+        fall back to) uses something the reader does not model: the property is then not decided, which is reported."""
+        self.ob(key, False, "anchor-missing: %s is not readable as a table any more (%s); the rule cannot decide" % (what, str(reason)[:100]), where)
+        return False
+
     def floor(self, key, count, floor, what, where=None):
         """Fail closed when a table / inventory has fewer entries than confirmed by hand."""
         ok = count >= floor
